@@ -61,10 +61,11 @@ Definition tip_flags_ok (t : utree) : bool :=
 
 Definition in_domain (t1 t2 : utree) : bool := unrooted_ok t1 && unrooted_ok t2 && same_taxa t1 t2.
 
-(** the trees are well-formed inputs on different taxa *)
+(** the trees are well-formed inputs whose taxon MULTISETS differ: another name, a missing or an
+    extra one, or a name carried by two tips (whatever the counts) *)
 Definition differing_taxa (t1 t2 : utree) : bool :=
-  wf t1 && wf t2 && nodup_sorted (ssort (leaves t1)) && nodup_sorted (ssort (leaves t2))
-  && negb (same_taxa t1 t2).
+  wf t1 && wf t2 &&
+  (negb (nodup_sorted (ssort (leaves t1)) && nodup_sorted (ssort (leaves t2))) || negb (same_taxa t1 t2)).
 
 Definition zn (n : nat) : Z := Z.of_nat n.
 
@@ -201,7 +202,10 @@ Definition judge_common (tips : bool) (t1 t2 : utree) (o : sexp) : verdict :=
                else if differing_taxa t1 t2 || negb (in_domain t1 t2) then VOk false "common:err"
                else VOracle ("trees on the same taxa rejected: " ++ gerr)
     | Ok (m1, mc) =>
-      if negb (String.eqb gerr "") then VCorr ("implementation refuses: " ++ gerr)
+      if negb (String.eqb gerr "") then
+        (* the worker indexes both trees before CommonEdges, as its contract demands: a tree with a
+           duplicated tip name is refused there (ReinitIndexes), which the model of CommonEdges does not cover *)
+        (if differing_taxa t1 t2 then VOk false "common:err" else VCorr ("implementation refuses: " ++ gerr))
       else match get_Z "tree1" o, get_Z "common" o with
            | Some g1, Some gc =>
              if negb (Z.eqb g1 m1 && Z.eqb gc mc) then VCorr ("model: tree1=" ++ show_Z m1 ++ " common=" ++ show_Z mc)
